@@ -322,6 +322,20 @@ func GenSched(r *sim.Rand, tier string) sim.Script {
 			s.Ops = append(s.Ops, Op{K: "blk", P: b - 1}, Op{K: "bset", B: b, Y: "k0", V: fmt.Sprintf("v%d", nv)}, Op{K: "bcommit", B: b})
 		}
 	}
+	if base == 0 && r.Chance(1, 100) {
+		// deep prefix: a committed chain longer than the walk bound (2000 links) in which only the first block wrote
+		// k0: lookups of k0 near the tip walk the whole bound and give up
+		base = 2001 + r.Intn(8)
+		nKeys = 1
+		for b := 0; b < base; b++ {
+			s.Ops = append(s.Ops, Op{K: "blk", P: b - 1})
+			if b == 0 {
+				nv++
+				s.Ops = append(s.Ops, Op{K: "bset", B: b, Y: "k0", V: fmt.Sprintf("v%d", nv)})
+			}
+			s.Ops = append(s.Ops, Op{K: "bcommit", B: b})
+		}
+	}
 	near := func(n int) int { // a block of the concurrent part, or one of the last blocks of the prefix
 		if base > 0 && r.Chance(1, 4) {
 			return base - 1 - r.Intn(3)
